@@ -8,11 +8,13 @@ package conf
 //   dec <keyhex> <filehex> <b64col> <opencol>
 //       real decrypt.Decrypt(key, file). b64col = E | hex(enc) and opencol = ~ | E | hex(plain) are oracle
 //       columns (encoding/base64, nacl/secretbox called directly by the generator).
-//   load f=<filehex> rk=<stage> mk=<stage> env=<k:v,...> np=<null path names> ;; <front>
+//   load f=<filehex> rk=<stage> mk=<stage> env=<k:v,...> pu=<names> ;; <front>
 //       real conf.Load on a file with that content and those environment variables.
 //       stage = ~ | keyhex/b64col/opencol   (RTSP_CONFKEY and MTX_CONFKEY)
 //       front = E | P | view : what the front half of Load (file, decrypt, YAML, env) produced when the
 //       generator ran it: error, panic, or the abstract view of the configuration handed to Validate.
+//       pu = variable names of the optional (pointer) parameters with an UnmarshalEnv method that are unset after
+//       the file has been read (oracle by reflection; decidable class of the open env-nil-receiver finding).
 // answers: "ok <view after Validate>" | "err" | "panic"
 
 import (
@@ -531,9 +533,32 @@ func verifC10Load(file []byte, rk, mk *string, kvs []verifC10KV) (res string) {
 	return res
 }
 
+var verifC10UnmIface = reflect.TypeOf((*env.Unmarshaler)(nil)).Elem()
+
+// names of nil pointer fields whose element type has an UnmarshalEnv method, below a struct value
+func verifC10NilUnm(prefix string, v reflect.Value, out *[]string) {
+	t := v.Type()
+	for i := 0; i < t.NumField(); i++ {
+		tag := strings.TrimSuffix(t.Field(i).Tag.Get("json"), ",omitempty")
+		if tag == "-" || tag == "" {
+			continue
+		}
+		name := prefix + "_" + strings.ToUpper(tag)
+		f := v.Field(i)
+		switch {
+		case f.Kind() == reflect.Pointer && f.Type().Implements(verifC10UnmIface):
+			if f.IsNil() {
+				*out = append(*out, name)
+			}
+		case f.Kind() == reflect.Struct && !reflect.PointerTo(f.Type()).Implements(verifC10UnmIface):
+			verifC10NilUnm(name, f, out)
+		}
+	}
+}
+
 // verifC10Front runs the front half of Load exactly as Load sequences it (same functions) and returns
-// E, P or the view handed to Validate, plus the names of paths whose value was null in the file.
-func verifC10Front(file []byte, rk, mk *string, kvs []verifC10KV) (res string, nullPaths []string) {
+// E, P or the view handed to Validate, plus the unset optional Unmarshaler parameters (see above).
+func verifC10Front(file []byte, rk, mk *string, kvs []verifC10KV) (res string, pu []string) {
 	defer func() {
 		if r := recover(); r != nil {
 			res = "P"
@@ -547,12 +572,28 @@ func verifC10Front(file []byte, rk, mk *string, kvs []verifC10KV) (res string, n
 			res = "E"
 			return
 		}
-		for name, o := range c.OptionalPaths {
-			if o == nil {
-				nullPaths = append(nullPaths, name)
+		for _, pfx := range []string{"RTSP", "MTX"} {
+			verifC10NilUnm(pfx, reflect.ValueOf(c).Elem(), &pu)
+			// paths addressed by the environment: existing ones with their unset parameters, new ones with all
+			seen := map[string]bool{}
+			for _, kv := range kvs {
+				rest, ok := strings.CutPrefix(kv.k, pfx+"_PATHS_")
+				if !ok {
+					continue
+				}
+				tok, _, _ := strings.Cut(rest, "_")
+				if tok == "" || tok != strings.ToUpper(tok) || seen[tok] {
+					continue
+				}
+				seen[tok] = true
+				vals := reflect.ValueOf(newOptionalPathValues()).Elem()
+				if o := c.OptionalPaths[strings.ToLower(tok)]; o != nil && o.Values != nil {
+					vals = reflect.ValueOf(o.Values).Elem()
+				}
+				verifC10NilUnm(pfx+"_PATHS_"+tok, vals, &pu)
 			}
 		}
-		sort.Strings(nullPaths)
+		sort.Strings(pu)
 		if err := env.Load("RTSP", c); err != nil {
 			res = "E"
 			return
@@ -564,7 +605,7 @@ func verifC10Front(file []byte, rk, mk *string, kvs []verifC10KV) (res string, n
 		setAllNilSlicesToEmptyRecursive(reflect.ValueOf(c))
 		res = verifC10View(c, false)
 	})
-	return res, nullPaths
+	return res, pu
 }
 
 // oracle columns of one decryption stage
@@ -626,9 +667,19 @@ func verifC10LoadOp(file []byte, rk, mk *string, kvs []verifC10KV) string {
 			mcol = verifutil.HexS(*mk) + "/E/~" // not reached by Load
 		}
 	}
-	front, np := verifC10Front(file, rk, mk, kvs)
-	return fmt.Sprintf("load f=%s rk=%s mk=%s env=%s np=%s ;; %s", verifutil.Hex(file), rcol, mcol,
-		verifC10FmtEnv(kvs), verifC10List(np), front)
+	front, pu := verifC10Front(file, rk, mk, kvs)
+	// only the names that some variable extends matter for the class (keeps the op line short)
+	var rel []string
+	for _, n := range pu {
+		for _, kv := range kvs {
+			if strings.HasPrefix(kv.k, n) {
+				rel = append(rel, n)
+				break
+			}
+		}
+	}
+	return fmt.Sprintf("load f=%s rk=%s mk=%s env=%s pu=%s ;; %s", verifutil.Hex(file), rcol, mcol,
+		verifC10FmtEnv(kvs), verifC10List(rel), front)
 }
 
 func TestVerifC10(t *testing.T) {
